@@ -40,7 +40,7 @@ type Layout struct {
 	Ann        string `json:"ann"`        // "inline" | "multi" | "multi-broken"
 	QuoteNames bool   `json:"quoteNames"` // rule names in quotes
 	EscNames   bool   `json:"escNames"`   // with QuoteNames: the last letter of the name written as a \\u escape
-	Comments   string `json:"comments"`   // "" | "eol" | "own-line" | "block"
+	Comments   string `json:"comments"`   // "" | "eol" | "eol-bare" | "own-line" | "own-line-bare" | "block"
 	Indent     string `json:"indent"`
 	Glue       bool   `json:"glue"` // no blank at all between an element and its annotation (`1// {min: 1}`)
 }
@@ -138,12 +138,17 @@ func (n *SNode) Print(l Layout) string {
 			switch l.Comments {
 			case "own-line":
 				out = append(out, "# a user comment")
+			case "own-line-bare":
+				out = append(out, "#")
 			case "block":
 				out = append(out, "###", "a block", "comment", "###")
 			}
 		}
 		if l.Comments == "eol" {
 			ln += " " + l.Pad + "# c"
+		}
+		if l.Comments == "eol-bare" { // an empty comment: the line ends right after the '#'
+			ln += " " + l.Pad + "#"
 		}
 		out = append(out, ln)
 	}
